@@ -813,8 +813,7 @@ pub fn drive_harness(h: &dyn Harness, verif_seed: u64, total: u64, workers: usiz
                 Err(e) => errors.push(format!("bad violation line: {e}")),
             }
         }
-        let distinct: BTreeSet<&str> = viols.iter().map(|v| v.violation.class.as_str()).collect();
-        if (viols.len() >= 8 && distinct.len() >= 3) || viols.len() >= 400 || start.elapsed().as_secs_f64() > wall_budget_s {
+        if viols.len() >= 2000 || start.elapsed().as_secs_f64() > wall_budget_s {
             stop = true;
         }
     }
